@@ -13,6 +13,8 @@ func init() {
 		c05Matcher(c)
 		c.Flush(false)
 		c05System(c)
+		c.Flush(false)
+		runHistories(c, c.N(1200, 30000), "gating", gatingCfg)
 	})
 	Register("C17", func(c *RunCtx) {
 		c17StatusTable(c)
@@ -30,7 +32,11 @@ func init() {
 		c.Flush(false)
 		c14HTTP(c)
 	})
-	Register("C04", func(c *RunCtx) { c04Enumerate(c) })
+	Register("C04", func(c *RunCtx) {
+		c04Enumerate(c)
+		c.Flush(false)
+		runHistories(c, c.N(1200, 30000), "gating", gatingCfg)
+	})
 	Register("C06", func(c *RunCtx) { c06Enumerate(c) })
 	Register("C19", func(c *RunCtx) {
 		c19Direct(c)
@@ -38,4 +44,17 @@ func init() {
 		c19System(c)
 	})
 	Register("C13", func(c *RunCtx) { c13Enumerate(c) })
+}
+
+// gatingCfg: histories for access gating and token currency: calls and
+// subscriptions on directly and indirectly held resources interleaved with
+// token events and reaccess events, with occasional denials.
+func gatingCfg(i int, r *Rng) HistCfg {
+	cfg := generalCfg(i, r)
+	cfg.Conns = 1 + r.Intn(3)
+	cfg.NRes = 3 + r.Intn(4)
+	cfg.PRef = 30 + r.Intn(25)
+	cfg.AccessOutcome = [4]int{86, 8, 3, 3}
+	cfg.W = map[string]int{"sub": 18, "unsub": 10, "get": 8, "call": 16, "callres": 6, "new": 4, "auth": 2, "token": 10, "reaccess": 12, "change": 6, "add": 3, "remove": 3, "custom": 2, "answer": 10, "quiesce": 4}
+	return cfg
 }
